@@ -979,6 +979,9 @@ pub struct S2<M: Machine> {
     /// what the gate compares `inflight` with (v5: min(receive_max, upper limit) once a
     /// CONNACK carrying receive_max has been handed to the state machine)
     pub limit_eff: u16,
+    /// a CONNACK has at some point of this history set the limit in force below the configured
+    /// one (the id allocator's cursor may have been left beyond it for good)
+    pub limit_ever_lowered: bool,
     pub manual: bool,
     /// `EventLoop.pending`
     pub pending: VecDeque<M::Req>,
@@ -1000,6 +1003,7 @@ impl<M: Machine> S2<M> {
             ver: M::VER,
             limit_cfg: limit,
             limit_eff: limit,
+            limit_ever_lowered: false,
             manual,
             pending: VecDeque::new(),
             connected: true,
@@ -1082,6 +1086,7 @@ impl<M: Machine> S2<M> {
         }
         if let (Ver::V5, true, Pk::ConnAck { receive_max: Some(rm), .. }) = (self.ver, c.outcome.is_ok(), p) {
             self.limit_eff = (*rm).min(self.limit_cfg);
+            self.limit_ever_lowered |= self.limit_eff < self.limit_cfg;
         }
         c
     }
@@ -1143,6 +1148,7 @@ impl<M: Machine> S2<M> {
         let c = self.call(Via::ConnAck, connack.clone(), |st| st.handle_incoming(connack));
         if let (true, Pk::ConnAck { receive_max: Some(rm), .. }) = (c.outcome.is_ok(), connack) {
             self.limit_eff = (*rm).min(self.limit_cfg);
+            self.limit_ever_lowered |= self.limit_eff < self.limit_cfg;
         }
         Some(c)
     }
@@ -1155,6 +1161,7 @@ impl<M: Machine> S2<M> {
         let c = self.call(Via::ConnAck, connack.clone(), |st| st.handle_incoming(connack));
         if let (true, Pk::ConnAck { receive_max: Some(rm), .. }) = (c.outcome.is_ok(), connack) {
             self.limit_eff = (*rm).min(self.limit_cfg);
+            self.limit_ever_lowered |= self.limit_eff < self.limit_cfg;
         }
         Some(c)
     }
